@@ -1108,10 +1108,22 @@ impl Oracle for PaymentsResolveOracle {
 					label.push(if failed == 1 { 'F' } else { '?' });
 				},
 				ClaimPolicy::Hold => {
-					if sent != 0 {
-						return Err(fail("PaymentSent for a held payment".into()));
+					if p.claimed_by_recipient {
+						if sent != 1 || failed != 0 {
+							return Err(fail(format!("held payment later claimed: PaymentSent x{} PaymentFailed x{}", sent, failed)));
+						}
+						label.push('S');
+					} else if p.failed_by_recipient {
+						if sent != 0 || failed != 1 {
+							return Err(fail(format!("held payment later failed: PaymentSent x{} PaymentFailed x{}", sent, failed)));
+						}
+						label.push('F');
+					} else {
+						if sent != 0 {
+							return Err(fail("PaymentSent for a held payment".into()));
+						}
+						label.push('H');
 					}
-					label.push('H');
 				},
 			}
 		}
